@@ -494,7 +494,15 @@ func (e *env) checkFanoutEx(stable, lossy, churn []*link, items [][]fanItem) {
 			return nil, false
 		}
 		var out []wireItem
+		var lastTS uint64
 		for i, f := range frames {
+			if e.cfg.outKey != nil && f.Sys == e.cfg.sysID && f.Signed() && f.ComputeSignature(*e.cfg.outKey) == f.Signature {
+				if f.Timestamp < lastTS {
+					dsim.Failf("signature-timestamp-monotone", "%s: signature timestamps decrease on the link: %d after %d (frame %d)", l.name, f.Timestamp, lastTS, i)
+					return nil, false
+				}
+				lastTS = f.Timestamp
+			}
 			if d := ref.DefByID(ref.HarnessDefs, f.MsgID); d != nil {
 				if f.ComputeChecksum(d.CRCExtra()) != f.Checksum {
 					dsim.Failf("whole-frames", "%s: frame %d has a wrong checksum: %s", l.name, i, f)
